@@ -26,7 +26,7 @@ theorem bitLength_eq {v : Int} (h : 0 ≤ v) : PyInt.bitLength v = Model.ConstFo
 theorem gen_correct_eq_model (fuel : Nat) (value : Int) (ty : Typ) :
     Gen.Py_constantfolding.correct fuel value (ty.bits : Int) (PyRt.ofBool ty.signed) = .ok (Model.ConstFold.correct value ty) := by
   unfold Gen.Py_constantfolding.correct Model.ConstFold.correct
-  have hpos : (0 : Int) < 2 ^ ty.bits := Proofs.Bits.pow_pos ty.bits
+  have hpos : (0 : Int) < 2 ^ ty.bits := Int.pow_pos (by decide)
   have h0 : 0 ≤ value % 2 ^ ty.bits := Int.emod_nonneg _ (by omega)
   simp only [shl_natCast, bind_ok, Int.one_mul]
   simp only [mod_of_pos _ hpos, bind_ok, PyRt.bitLength, PyRt.ofBool, bitLength_eq h0]
